@@ -13,6 +13,9 @@ in `Rat` (polynomial kernels).  Numbers arrive as exact rationals; vectors as `n
   B  rbf|matern <go> <saved>              generated backward, elementwise
   P  <q> <j> <r…>                         generated _fmax·_get_cov  |  PS: the documented polynomial
   GK <family> <params…> <X1> <X2>         terms of Gen/KernelFormulas.lean (regenerated kernel forwards / sq_dist / dist)
+  GA <family> <params…> <X1> <X2>         terms of Gen/KernelAxes.lean (axis-aware regenerated forwards: sm, hamming, gskl, arc, cyl;
+                                          `…same` = x1 is x2 (diagonal entries use the on-diagonal term), `…diag` = 1×n row of diag=True;
+                                          rbfgradm | m52gradm <ls> <X1> <X2> = the whole generated derivative-kernel matrix, shuffle included)
   NG <z> <s>                              Newton–Girard: coded recursion and defining recursion
   MT <n> (<kern> <B> <v>)ⁿ <X1> <X2>      Σ data-kernel ⊗ task-kernel (Multitask / LCM), interleaved layout
   IX <B> <v> <idx1> <idx2>                IndexKernel lookups (Rat)
@@ -20,6 +23,7 @@ in `Rat` (polynomial kernels).  Numbers arrive as exact rationals; vectors as `n
 import GPVerif.Model.Kernels
 import GPVerif.Gen.Formulas
 import GPVerif.Gen.KernelFormulas
+import GPVerif.Gen.KernelAxes
 import GPVerif.Model.Proto
 
 open Kernels Scalar
@@ -183,11 +187,84 @@ def runGK (ts : List String) : Option (List (List Float)) :=
   | "distsame" :: ts => do let (c, ts) ← pVec ts; fin (fun a b => Gen.KernelFormulas.distGenSameOff dst a b c) ts
   | _ => none
 
+/-- axis-aware generated kernel forwards (`Gen/KernelAxes.lean`) -/
+def runGA (ts : List String) : Option (List (List Float)) :=
+  let fin (f : List Float → List Float → Float) (ts : List String) : Option (List (List Float)) := do
+    let (X1, ts) ← pMat (α := Float) ts; let (X2, _) ← pMat ts
+    some (kernMatrix f X1 X2)
+  -- x1 is x2: entry (i, j) with i = j uses the on-diagonal term
+  let finSame (foff fdiag : List Float → List Float → Float) (ts : List String) : Option (List (List Float)) := do
+    let (X1, ts) ← pMat (α := Float) ts; let (X2, _) ← pMat ts
+    some ((X1.zipIdx).map fun (a, i) => (X2.zipIdx).map fun (b, j) => if i == j then fdiag a b else foff a b)
+  -- diag=True: 1 × n row, entry i from rows i of X1 and X2
+  let finDiag (f : List Float → List Float → Float) (ts : List String) : Option (List (List Float)) := do
+    let (X1, ts) ← pMat (α := Float) ts; let (X2, _) ← pMat ts
+    some [(X1.zip X2).map fun (a, b) => f a b]
+  let jit : Float → Float → Float := fun t e => if t == 0 then t + e else t
+  let split (x : List Float) : List Float × List Float := (x.take (x.length / 2), x.drop (x.length / 2))
+  let ts0 := ts.headD ""
+  match ts with
+  | "sm" :: ts => do
+      let (w, ts) ← pVec ts; let (mu, ts) ← pMat ts; let (sc, ts) ← pMat ts
+      fin (fun a b => Gen.KernelAxes.spectralMixture a b w mu sc) ts
+  | "smdiag" :: ts => do
+      let (w, ts) ← pVec ts; let (mu, ts) ← pMat ts; let (sc, ts) ← pMat ts
+      finDiag (fun a b => Gen.KernelAxes.spectralMixtureDiag a b w mu sc) ts
+  | "hamming" :: ts => do
+      let (v, ts) ← pNat ts; let (al, ts) ← pNum ts; let (be, ts) ← pNum ts
+      fin (fun a b => Gen.KernelAxes.hamming v a b al be) ts
+  | "hammingsame" :: ts => do
+      let (v, ts) ← pNat ts; let (al, ts) ← pNum ts; let (be, ts) ← pNum ts
+      finSame (fun a b => Gen.KernelAxes.hammingSameOff v a b al be) (fun a b => Gen.KernelAxes.hammingSameDiag v a b al be) ts
+  | "hammingdiagsame" :: ts => do
+      let (v, ts) ← pNat ts; let (al, ts) ← pNum ts; let (be, ts) ← pNum ts
+      finDiag (fun a b => Gen.KernelAxes.hammingDiagSame v a b al be) ts
+  | "hammingdiagother" :: ts => do
+      let (v, ts) ← pNat ts; let (al, ts) ← pNum ts; let (be, ts) ← pNum ts
+      finDiag (fun a b => Gen.KernelAxes.hammingDiagOther v a b al be) ts
+  | "gskl" :: ts => do let (l, ts) ← pNum ts; fin (fun a b => Gen.KernelAxes.gskl a b l) ts
+  | "gskldiag" :: ts => do let (l, ts) ← pNum ts; finDiag (fun a b => Gen.KernelAxes.gsklDiag a b l) ts
+  | "arc" :: ts => do
+      let (k, ts) ← pKern (α := Float) ts; let (ls, ts) ← pVec ts; let (an, ts) ← pVec ts; let (ra, ts) ← pVec ts
+      fin (fun a b => Gen.KernelAxes.arc k.eval a b (bcast ls a.length) (bcast an a.length) (bcast ra a.length)) ts
+  | "arcdiag" :: ts => do
+      let (k, ts) ← pKern (α := Float) ts; let (ls, ts) ← pVec ts; let (an, ts) ← pVec ts; let (ra, ts) ← pVec ts
+      finDiag (fun a b => Gen.KernelAxes.arcDiag k.eval a b (bcast ls a.length) (bcast an a.length) (bcast ra a.length)) ts
+  | "arcm" :: ts => do
+      let (k, ts) ← pKern (α := Float) ts; let (ls, ts) ← pVec ts; let (an, ts) ← pVec ts; let (ra, ts) ← pVec ts
+      fin (fun a b =>
+        let (xa, ma) := split a; let (xb, mb) := split b
+        Gen.KernelAxes.arcMasked k.eval xa xb ma mb (bcast ls xa.length) (bcast an xa.length) (bcast ra xa.length)) ts
+  | "arcmdiag" :: ts => do
+      let (k, ts) ← pKern (α := Float) ts; let (ls, ts) ← pVec ts; let (an, ts) ← pVec ts; let (ra, ts) ← pVec ts
+      finDiag (fun a b =>
+        let (xa, ma) := split a; let (xb, mb) := split b
+        Gen.KernelAxes.arcMaskedDiag k.eval xa xb ma mb (bcast ls xa.length) (bcast an xa.length) (bcast ra xa.length)) ts
+  | "cyl" :: ts => do
+      let (k, ts) ← pKern (α := Float) ts; let (w, ts) ← pVec ts; let (al, ts) ← pNum ts; let (be, ts) ← pNum ts
+      let (e, ts) ← pNum ts
+      fin (fun a b => Gen.KernelAxes.cylindrical k.eval jit a b w al be e) ts
+  | "rbfgradm" :: ts | "m52gradm" :: ts => do
+      let (ls, ts) ← pVec (α := Float) ts
+      let (X1, ts) ← pMat ts; let (X2, _) ← pMat ts
+      let d := (X1.head?.map List.length).getD 0
+      let ls := bcast ls d
+      let (n1, n2) := (X1.length, X2.length)
+      let f := if ts0 == "rbfgradm" then Gen.KernelAxes.rbfGradMatrix (α := Float) else Gen.KernelAxes.matern52GradMatrix
+      some ((List.range (n1 * (d + 1))).map fun r => (List.range (n2 * (d + 1))).map fun c =>
+        f Scalar.sqDist Scalar.dist n1 n2 d X1 X2 ls r c)
+  | "cyldiag" :: ts => do
+      let (k, ts) ← pKern (α := Float) ts; let (w, ts) ← pVec ts; let (al, ts) ← pNum ts; let (be, ts) ← pNum ts
+      let (e, ts) ← pNum ts
+      finDiag (fun a b => Gen.KernelAxes.cylindricalDiag k.eval jit a b w al be e) ts
+  | _ => none
+
 def stepF (ts : List String) : Option String :=
   match ts with
   | "K" :: ts => (runK (α := Float) ts).map showMatF
   | "G" :: ts => (runG (α := Float) ts).map showMatF
   | "GK" :: ts => (runGK ts).map showMatF
+  | "GA" :: ts => (runGA ts).map showMatF
   | "MT" :: ts => (runMT (α := Float) ts).map showMatF
   | "I" :: "rbf" :: ts => do
       let (ls, ts) ← pVec (α := Float) ts; let (c, ts) ← pVec ts
